@@ -200,6 +200,10 @@ func buildCase(kind, arg, items string) (ast.Statement, error) {
 		for i := 1; i < len(sel); i++ {
 			n.Operators = append(n.Operators, op)
 		}
+		if len(n.Operators) == 0 && op == "EXCEPT" {
+			// a single member: keep "some operator is EXCEPT" true, as the case says
+			n.Operators = []string{op}
+		}
 		return n, nil
 	}
 	return nil, fmt.Errorf("unknown kind %q", kind)
